@@ -55,6 +55,10 @@ def make_operation(rng, R, screen, only=None):
             force = [str(x) for x in rng.choice(pl, size=int(rng.integers(1, len(pl) + 1)), replace=False)]
             if rng.random() < 0.2:
                 force.append("no_such_plate")
+            if rng.random() < 0.3:
+                force.insert(int(rng.integers(0, len(force) + 1)), force[int(rng.integers(len(force)))])  # a name listed twice
+            if rng.random() < 0.3:
+                force = np.array(force)  # a numpy array of names instead of a list
         p = dict(force_include_plate_names=force)
         g = R.PlatePermutationPlateGenerator(**p)
         return "generator", name, p, g.generate_plates
